@@ -20,7 +20,10 @@ out.append("**Independently written property-breaking changes** (`/verif/seeded/
 out.append("| id | property | change | target | caught by |\n|---|---|---|---|---|")
 for r in rows: out.append("| %s | %s | %s | %s | %s |" % r)
 n=len(rows); t=sum(1 for r in rows if r[3]=='yes'); a=sum(1 for r in rows if r[4]!='-')
-out.append(f"\n{n} changes kept; {t} caught by the target property's check, {a} caught by at least one check.\n")
+na={'C05','C16','C17'}
+claimed_any=sum(1 for r in rows if any(x not in na for x in r[4].split()))
+only_aux=[r[0] for r in rows if r[4] != '-' and all(x in na for x in r[4].split())]
+out.append(f"\n{n} changes kept; {t} caught by the check of the property they were written for, {a} caught by at least one check, {claimed_any} by at least one *registered* check.  The {len(only_aux)} caught only by the unregistered auxiliary checks of the not-applicable properties C05 C16 C17 were all written for those properties: {', '.join(only_aux)}.\n")
 if own:
     out.append("**Own catalogue** (`/verif/mutants/own-*`, hand-written from appendix A.5; only those that pass the existing suite are kept):\n")
     out.append("| id | property: change | result |\n|---|---|---|")
